@@ -295,6 +295,10 @@ for _pid in ('C06', 'C01'):
 for _pid in ('C04', 'C05', 'C07'):
     if 'OtterVerif.Props.C04Joint' not in PROPS[_pid]['modules']:
         PROPS[_pid]['modules'].append('OtterVerif.Props.C04Joint')
+# timer wheel and table jointly: every mapped node is scheduled, the sweep loses nothing, C13 stated on the mapped nodes
+for _pid in ('C13', 'C05'):
+    if 'OtterVerif.Props.C13Joint' not in PROPS[_pid]['modules']:
+        PROPS[_pid]['modules'].append('OtterVerif.Props.C13Joint')
 for _pid, _mods in PINS.items():
     for _m in _mods:
         _name = 'OtterVerif.Pin.' + _m
